@@ -52,6 +52,7 @@ type progCfg struct {
 	walLimit  uint // TxOptions.WALLimit
 	overflow  bool
 	ops       []int // allowed operation kinds
+	firstOps  []int // if set: the operation kinds allowed for the first operation of a transaction
 	nOps      int
 	endings   []int // allowed endings
 	checkInTx bool
@@ -429,6 +430,13 @@ func (s *progState) runTx() int {
 	verifAssert(err == nil, "Begin succeeds")
 	w := s.m.clone()
 	for k := 0; k < s.cfg.nOps; k++ {
+		if k == 0 && s.cfg.firstOps != nil {
+			ops := s.cfg.ops
+			s.cfg.ops = s.cfg.firstOps
+			s.step(tx, w)
+			s.cfg.ops = ops
+			continue
+		}
 		s.step(tx, w)
 	}
 	if s.cfg.checkInTx {
